@@ -167,6 +167,7 @@ def scrape_once(scraper, url, ctype, data, extra_fields=()):
         response.fields[k] = v
     response.body = Body()
     response.body.write(data)
+    response.body.seek(0)        # Session.download rewinds the body before anything reads it
     response.request = request
     try:
         scraper.scrape_info(request, response)
@@ -186,7 +187,9 @@ def stream_scrape(ctx, n):
         data = {'html': lambda: hostile.html_doc(rng, ['/x']), 'css': lambda: hostile.css_doc(rng), 'js': lambda: hostile.js_doc(rng),
                 'xml': lambda: hostile.sitemap_doc(rng), 'robots': lambda: hostile.robots_doc(rng)}[kind]()
         ctype = rng.choice([{'html': 'text/html', 'css': 'text/css', 'js': 'application/javascript', 'xml': 'text/xml', 'robots': 'text/plain'}[kind],
-                            'text/html; charset=bogus', 'text/html; charset=utf-16', None, 'application/xhtml+xml', 'text/css; charset=\x00'])
+                            'text/html; charset=bogus', 'text/html; charset=utf-16', None, 'application/xhtml+xml', 'text/css; charset=\x00',
+                            'text/html; charset=' + hostile.charset(rng), 'text/css; charset=' + hostile.charset(rng),
+                            'application/javascript; charset=' + hostile.charset(rng), 'text/xml; charset=' + hostile.charset(rng)])
         url = rng.choice(['http://a.test/d.html', 'http://a.test/s.css', 'http://a.test/x.js', 'http://a.test/sitemap.xml', 'http://a.test/robots.txt',
                           'http://a.test/sitemap.xml.gz', 'http://a.test/'])
         extra = [('Refresh', rng.choice(['0; url=/r', 'x', '0;url=http://[']))] if rng.random() < 0.2 else []
